@@ -117,7 +117,6 @@ void harness(void) {
             JanetFunction *nf = janet_unwrap_function(made);
             for (int32_t i = 0; i < 2; i++) if (i < subdef.environments_length)
                 VF_ASSERT(nf->envs[i] == &env0 || (vf_last_env != NULL && (void *) nf->envs[i] == vf_last_env), "the new closure captured something that is not an environment of the running function");
-            VF_WITNESS("closure inspected");
         }
     }
     /* frame-locality: words below the frame header never change; words above the slots change only by pushing */
